@@ -5,7 +5,8 @@ copy and runs the quick checks; a change is *caught* when a check expected to se
 
   tools/sensitivity.py                    all of mutants/index.json and seeded/*/meta.json
   tools/sensitivity.py NAME [NAME...]     only those
-  options: --all-props (run every claimed property, not only the expected ones)
+  options: --shard K/N (every N-th target starting at K; run N instances side by side) --out FILE
+           --all-props (run every claimed property, not only the expected ones)
            --with-regressions (let the regression replays run too; default: search only)
            --cases N
 
@@ -104,8 +105,14 @@ def main():
     cases = None
     if "--cases" in args:
         cases = int(args[args.index("--cases") + 1])
-    names = [a for a in args if not a.startswith("--") and not a.isdigit()]
+    out_file = args[args.index("--out") + 1] if "--out" in args else None
+    shard = args[args.index("--shard") + 1] if "--shard" in args else None
+    skip = {out_file, shard}
+    names = [a for a in args if not a.startswith("--") and not a.isdigit() and a not in skip]
     targets = [t for t in load_targets() if not names or t["name"] in names]
+    if shard:
+        k, n = (int(x) for x in shard.split("/"))
+        targets = targets[k::n]
     os.makedirs(ROOT, exist_ok=True)
     results = []
     try:
@@ -121,7 +128,9 @@ def main():
         shutil.rmtree(f"{ROOT}/target-sim", ignore_errors=True)
         shutil.rmtree(ROOT, ignore_errors=True)
         subprocess.run(["git", "-C", REPO, "worktree", "prune"], capture_output=True)
-    if not names:
+    if out_file:
+        json.dump(results, open(out_file, "w"), indent=1)
+    elif not names:
         json.dump(results, open(f"{VERIF}/sensitivity.json", "w"), indent=1)
     missed = [r["name"] for r in results if not r.get("caught") and "error" not in r and r.get("tests_ok")]
     print(f"{len(results)} changes, {len(missed)} missed: {missed}")
